@@ -1,18 +1,36 @@
 (* C14 - the property theorems, nothing else.  Each is closed by [exact] of a lemma proved in coq/Persist/*Proofs.v
    and followed by Print Assumptions. *)
 From Icv Require Import Base.Tac Persist.PsValue Persist.PsModel Persist.PsValueProofs
-  Persist.PsAtomicProofs Persist.PsRestoreProofs Persist.PsRoundtripProofs.
+  Persist.PsAtomicProofs Persist.PsRestoreProofs Persist.PsRoundtripProofs Persist.PsStateProofs.
 From Coq Require Import NArith.
 Local Open Scope N_scope.
 
 (* ---------------------------------------------------------------- state round trip *)
-(* Deserialize (Serialize v) = v for EVERY value of the data model (any nesting of arrays and dictionaries, any
-   keys and strings, numbers, booleans, null) - under the visible premise [ps_plain v], which excludes exactly
-   the shape of finding F-C14-b: a dictionary that has a key "type" (and reflected objects, see notes). *)
-Theorem C14_state_roundtrip : forall env mask v,
+(* RestoreObjects (DumpObjects objs) onto the freshly configured population gives back objs - for EVERY population
+   (any number of objects of any types of the environment, state fields holding any nesting of arrays, dictionaries
+   and reflected objects such as the CheckResult in last_check_result) under the visible premise
+   [ps_persisted_clean]: no dictionary inside a persisted field has a key "type" (negated signature of finding
+   state-type-key).  [ps_obj_shape]: the fresh object has the same type, name and fields, fields that are not
+   persisted hold their configured value, persisted fields are fields of the type, none is called "type". *)
+Theorem C14_state_roundtrip : forall env mask objs fresh,
+  ps_env_ok env -> (mask =? 0) = false ->
+  Forall2 (ps_obj_shape env mask) objs fresh -> NoDup (map ps_id objs) ->
+  (forall o, In o objs -> ps_persisted_clean env mask o) ->
+  ps_restore_objects env mask (ps_dump_objects env mask objs) fresh = objs.
+Proof. exact ps_population_roundtrip_clean. Qed.
+Print Assumptions C14_state_roundtrip.
+
+(* the value level: Deserialize (Serialize v) = v for every clean value, nested reflected objects included *)
+Theorem C14_state_roundtrip_values : forall env mask, ps_env_ok env -> forall v,
+  ps_clean env mask v = true -> ps_deserialize env mask (ps_serialize env mask v) = v.
+Proof. exact ps_clean_roundtrip. Qed.
+Print Assumptions C14_state_roundtrip_values.
+
+(* plain data (no reflected objects): no premise on the type environment at all *)
+Theorem C14_state_roundtrip_plain : forall env mask v,
   ps_plain v = true -> ps_deserialize env mask (ps_serialize env mask v) = v.
 Proof. exact ps_value_roundtrip. Qed.
-Print Assumptions C14_state_roundtrip.
+Print Assumptions C14_state_roundtrip_plain.
 
 (* ... and outside that premise the statement is false (known finding state-type-key) *)
 Theorem C14_state_type_key_refuted :
@@ -122,6 +140,14 @@ Print Assumptions C14_atomic_oracle_accepts_model.
 
 (* non-vacuity: the premises of C14_restore are met by a nested path whose leaf does not exist; the value at the path
    returns to null, while the enclosing dictionary keeps a null entry (observation "null leaf") *)
+Example C14_state_nonvacuous :
+  let cr := PsObj [67] [([111], PsStr [120]); ([112], PsArr [PsDict [([97], PsNum 5 1)]; PsEmpty])] in
+  let objs := [ps_s_host [1] (PsStr [99]) (PsNum 2 0) cr; ps_s_host [2] (PsStr [100]) (PsNum 1 0) PsEmpty] in
+  let fresh := [ps_s_host [1] (PsStr [99]) (PsNum 0 0) PsEmpty; ps_s_host [2] (PsStr [100]) (PsNum 0 0) PsEmpty] in
+  ps_restore_objects ps_s_env ps_FAState (ps_dump_objects ps_s_env ps_FAState objs) fresh = objs /\
+  ps_clean ps_s_env ps_FAState cr = true.
+Proof. exact ps_population_roundtrip_nonvacuous. Qed.
+
 Example C14_nonvacuous :
   let o := ps_w_obj (PsDict [([97], PsDict [([120], PsNum 1 0)])]) in
   let p := [118; 97; 114; 115; 46; 97; 46; 122] in
